@@ -37,6 +37,7 @@ FIXED = [
  ("F47", ["C13"], "73637f4", "chk2plt on a state binary file cut after its first box returned normally: the single box found was broadcast to every box the level header lists for that file"),
  ("F48", ["C13"], "5d6e93a", "combine on a first input whose binary file is cut after its first box returned normally: the single offset found was broadcast to every box the level header lists for that file"),
  ("F50", ["C13"], "34750da", "chk2plt with the same-step plotfile beside the checkpoint as target_plotfile and the default output (chk2plt -c chk00010 -p plt00010) wrote its Header, level headers and binaries over that input plotfile"),
+ ("F54", ["C05", "C06", "C11", "C14"], "8478b87", "colander, chef and combine on a plotfile whose Header states other level directory names than Level_<n> (AMReX levelPrefix): the output Header hard-coded Level_<n>/Cell while the data went to the stated names (combine could not open its output files)"),
  ("F21", ["C13"], "b455f93", "combine default output with a trailing slash on input 1 was input 2 itself (its Header overwritten)"),
  ("F6",  ["C07"], "a55b6fc", "mandoline default position was (high-low)/2, outside the domain for shifted origins -> uninitialised image"),
  ("F49", ["C07", "C16"], "1fc4943", "slice plane within round-off of the last / first cell centre of a box (box bounds carrying 1 ulp of round-off): treated as one-sided, the other interpolation side was uninitialised memory"),
